@@ -1,26 +1,189 @@
 //! C03 harness: proof integrity.
 //!   c03 falsify <seed> <n_configs> [max_proof_bytes]  -> JSON failure lines + summary lines "class=<c> mutants=<k> ..."
-//! Oracle (independent of any model): a mutant whose DECODED content differs from the accepted original must be
-//! rejected or fail to parse.  Excluded, as the property says: mutants that decode to an equal `Proof` value
-//! (alternative byte encodings) and layout-only FRI partition metadata.  Panics are recorded for C06, not counted here.
-use std::collections::BTreeMap;
+//!   c03 corr <seed> <n>                               -> lines "<shape> => <observable event list of the REAL verifier>"
+//!   c03 replay <seed> <n_configs> <max_proof_bytes> <class-substring>   (falsify restricted to the mutation classes that match)
+//! Falsifier oracle (independent of any model): a mutant whose DECODED content differs from the accepted original must
+//! be rejected or fail to parse.  Excluded, as the property says: mutants that decode to an equal `Proof` value
+//! (alternative byte encodings, bytes after the end of the proof) and layout-only FRI partition metadata.  Panics are
+//! recorded for C06, not counted here.  A mutant that differs ONLY in the proof-of-work nonce and is accepted drew the
+//! same positions: another valid proof of the same statement (counted as alt_nonce).
+//! Correspondence: the real `verify()` runs with `RecordingCoin<DefaultRandomCoin<LoggingHasher<H>>>` and
+//! `LoggingHasher<H>`; every hasher call (with input bytes and output digest) and every coin operation lands in ONE
+//! ordered log, which is abstracted to the event alphabet of coq/Model/Integrity.v by comparing logged bytes with the
+//! components of the serialized proof (dissected by `Layout`, which knows only the wire format).
+use std::cell::RefCell;
+use std::collections::{BTreeMap, BTreeSet, HashMap};
+use std::marker::PhantomData;
 use std::panic::AssertUnwindSafe;
 
-use winter_air::{proof::Proof, FieldExtension, ProofOptions};
-use winter_crypto::{hashers::Blake3_256, DefaultRandomCoin, ElementHasher};
-use winter_math::{fields::{f128, f64}, ExtensibleField, StarkField};
-use winter_prover::Prover;
+use winter_air::{proof::Proof, Air, FieldExtension, ProofOptions};
+use winter_crypto::{hashers::{Blake3_256, Rp64_256}, DefaultRandomCoin, ElementHasher, Hasher};
+use winter_math::{fields::{f128, f64, CubeExtension, QuadExtension}, ExtensibleField, FieldElement, StarkField};
+use winter_prover::{Prover, Trace};
+use winter_utils::{Deserializable, Serializable, SliceReader};
 use winter_verifier::{verify, AcceptableOptions};
-use wf_harness::{airfam::*, catch, hex_bytes, jstr, prng::Rng, silence_panics, toy::ToyHasher};
+use wf_harness::{airfam::*, catch, coinrec::{self, RecordingCoin}, hex_bytes, jstr, prng::Rng, silence_panics, toy::ToyHasher};
 
+// ================================================================================================ wire-format dissector
+/// One component of the serialized proof: `[start, end)` is the body, `pfx` the (offset, width) of its little-endian
+/// length prefix when it has one.
+#[derive(Clone, Debug)]
+struct Seg { name: String, pfx: Option<(usize, usize)>, start: usize, end: usize }
+
+#[derive(Clone, Debug)]
+struct Layout { segs: Vec<Seg>, nlayers: usize }
+
+impl Layout {
+    fn get(&self, name: &str) -> &Seg { self.segs.iter().find(|s| s.name == name).unwrap_or_else(|| panic!("no segment {}", name)) }
+    fn body<'a>(&self, bytes: &'a [u8], name: &str) -> &'a [u8] { let s = self.get(name); &bytes[s.start..s.end] }
+}
+
+fn rd(bytes: &[u8], pos: usize, w: usize) -> Option<usize> {
+    if pos + w > bytes.len() { return None; }
+    let mut v = 0usize;
+    for k in (0..w).rev() { v = (v << 8) | bytes[pos + k] as usize; }
+    Some(v)
+}
+
+/// Dissects `Proof::to_bytes()` (air/src/proof/mod.rs write_into and the write_into of its parts).
+fn dissect(bytes: &[u8], ctx_len: usize, nseg: usize) -> Option<Layout> {
+    let mut segs = Vec::new();
+    let mut pos = 0usize;
+    let plain = |segs: &mut Vec<Seg>, pos: &mut usize, name: &str, len: usize| -> Option<()> {
+        if *pos + len > bytes.len() { return None; }
+        segs.push(Seg { name: name.to_string(), pfx: None, start: *pos, end: *pos + len }); *pos += len; Some(())
+    };
+    let pref = |segs: &mut Vec<Seg>, pos: &mut usize, name: &str, w: usize| -> Option<()> {
+        let len = rd(bytes, *pos, w)?;
+        if *pos + w + len > bytes.len() { return None; }
+        segs.push(Seg { name: name.to_string(), pfx: Some((*pos, w)), start: *pos + w, end: *pos + w + len }); *pos += w + len; Some(())
+    };
+    plain(&mut segs, &mut pos, "ctx", ctx_len)?;
+    plain(&mut segs, &mut pos, "nq", 1)?;
+    pref(&mut segs, &mut pos, "commitments", 2)?;
+    for i in 0..nseg {
+        pref(&mut segs, &mut pos, &format!("tq{}.values", i), 4)?;
+        pref(&mut segs, &mut pos, &format!("tq{}.paths", i), 4)?;
+    }
+    pref(&mut segs, &mut pos, "cq.values", 4)?;
+    pref(&mut segs, &mut pos, "cq.paths", 4)?;
+    pref(&mut segs, &mut pos, "ood.trace", 2)?;
+    pref(&mut segs, &mut pos, "ood.lagrange", 2)?;
+    pref(&mut segs, &mut pos, "ood.evals", 2)?;
+    let nlayers = rd(bytes, pos, 1)?;
+    plain(&mut segs, &mut pos, "fri.nlayers", 1)?;
+    for i in 0..nlayers {
+        pref(&mut segs, &mut pos, &format!("fri{}.values", i), 4)?;
+        pref(&mut segs, &mut pos, &format!("fri{}.paths", i), 4)?;
+    }
+    pref(&mut segs, &mut pos, "fri.remainder", 2)?;
+    plain(&mut segs, &mut pos, "fri.partitions", 1)?;
+    plain(&mut segs, &mut pos, "nonce", 8)?;
+    let rest = bytes.len() - pos;
+    plain(&mut segs, &mut pos, "gkr", rest)?;
+    Some(Layout { segs, nlayers })
+}
+
+/// Replace the body of a length-prefixed component and rewrite its prefix.
+fn splice(bytes: &[u8], s: &Seg, body: &[u8]) -> Vec<u8> {
+    let mut m = bytes[..s.start].to_vec();
+    m.extend_from_slice(body);
+    m.extend_from_slice(&bytes[s.end..]);
+    if let Some((p, w)) = s.pfx { let mut v = body.len(); for k in 0..w { m[p + k] = (v & 0xff) as u8; v >>= 8; } }
+    m
+}
+
+// ================================================================================================ logging hasher
+#[derive(Clone, Debug)]
+enum Ent {
+    Coin(String),
+    HashElems { bytes: Vec<u8>, out: Vec<u8> },
+    HashBytes { len: usize },
+    Merge { a: Vec<u8>, b: Vec<u8>, out: Vec<u8> },
+    MergeInt,
+}
+thread_local! { static ULOG: RefCell<Vec<Ent>> = RefCell::new(Vec::new()); }
+fn drain_coin() { let l = coinrec::take_log(); if !l.is_empty() { ULOG.with(|u| u.borrow_mut().extend(l.into_iter().map(Ent::Coin))); } }
+fn upush(e: Ent) { drain_coin(); ULOG.with(|u| u.borrow_mut().push(e)); }
+fn take_ulog() -> Vec<Ent> { drain_coin(); ULOG.with(|u| std::mem::take(&mut *u.borrow_mut())) }
+
+/// Forwards to `H` and logs every call.  The library is generic in the hasher, so the real verifier runs unchanged.
+pub struct LoggingHasher<H>(PhantomData<H>);
+impl<H: ElementHasher> Hasher for LoggingHasher<H> {
+    type Digest = H::Digest;
+    const COLLISION_RESISTANCE: u32 = H::COLLISION_RESISTANCE;
+    fn hash(bytes: &[u8]) -> Self::Digest { let d = H::hash(bytes); upush(Ent::HashBytes { len: bytes.len() }); d }
+    fn merge(values: &[Self::Digest; 2]) -> Self::Digest {
+        let d = H::merge(values);
+        upush(Ent::Merge { a: values[0].to_bytes(), b: values[1].to_bytes(), out: d.to_bytes() }); d
+    }
+    fn merge_with_int(seed: Self::Digest, value: u64) -> Self::Digest { let d = H::merge_with_int(seed, value); upush(Ent::MergeInt); d }
+}
+impl<H: ElementHasher> ElementHasher for LoggingHasher<H> {
+    type BaseField = H::BaseField;
+    fn hash_elements<E: FieldElement<BaseField = Self::BaseField>>(elements: &[E]) -> Self::Digest {
+        let d = H::hash_elements(elements);
+        let mut bytes = Vec::with_capacity(elements.len() * E::ELEMENT_BYTES);
+        for e in elements { e.write_into(&mut bytes); }
+        upush(Ent::HashElems { bytes, out: d.to_bytes() }); d
+    }
+}
+
+// ================================================================================================ cases
 #[derive(Default)]
-struct Stats { mutants: usize, parse_err: usize, rejected: usize, same_content: usize, accepted_diff: usize, panics: usize, alt_nonce: usize }
+struct Stats { mutants: usize, parse_err: usize, rejected: usize, same_content: usize, accepted_diff: usize, panics: usize, alt_nonce: usize, infeasible: usize }
 
-struct Case<B: StarkField> { spec: Spec, opts: ProofOptions, bytes: Vec<u8>, proof: Proof, pi: PubInputs<B>, desc: String }
+struct Case<B: StarkField> { spec: Spec, opts: ProofOptions, bytes: Vec<u8>, proof: Proof, pi: PubInputs<B>, desc: String, meta: Vec<u8> }
 
-fn make_case<B, H>(r: &mut Rng, maxb: usize, hname: &str) -> Option<Case<B>>
-where B: StarkField + ExtensibleField<2> + ExtensibleField<3> + 'static, H: ElementHasher<BaseField = B> + Send + Sync {
-    for _ in 0..200 {
+trait Fld: StarkField + ExtensibleField<2> + ExtensibleField<3> + 'static { const NAME: &'static str; }
+impl Fld for f64::BaseElement { const NAME: &'static str = "f64"; }
+impl Fld for f128::BaseElement { const NAME: &'static str = "f128"; }
+
+// ---- a prover whose trace carries metadata (TraceInfo::meta is proof content: it is serialized in the context) ----
+struct MetaTrace<B: StarkField> { inner: FamTrace<B>, info: winter_air::TraceInfo }
+impl<B: StarkField> Trace for MetaTrace<B> {
+    type BaseField = B;
+    fn info(&self) -> &winter_air::TraceInfo { &self.info }
+    fn main_segment(&self) -> &winter_prover::matrix::ColMatrix<B> { self.inner.main_segment() }
+    fn read_main_frame(&self, row_idx: usize, frame: &mut winter_air::EvaluationFrame<B>) { self.inner.read_main_frame(row_idx, frame) }
+}
+struct MetaProver<B: StarkField, H> { options: ProofOptions, _p: PhantomData<(B, H)> }
+impl<B: Fld, H: ElementHasher<BaseField = B> + Send + Sync> Prover for MetaProver<B, H> {
+    type BaseField = B;
+    type Air = FamAir<B>;
+    type Trace = MetaTrace<B>;
+    type HashFn = H;
+    type RandomCoin = DefaultRandomCoin<H>;
+    type TraceLde<E: FieldElement<BaseField = B>> = winter_prover::DefaultTraceLde<E, H>;
+    type ConstraintEvaluator<'a, E: FieldElement<BaseField = B>> = winter_prover::DefaultConstraintEvaluator<'a, FamAir<B>, E>;
+    fn get_pub_inputs(&self, trace: &MetaTrace<B>) -> PubInputs<B> {
+        PubInputs { spec: trace.inner.spec.clone(), avals: assertion_values(&trace.inner.spec, &trace.inner.cols()) }
+    }
+    fn options(&self) -> &ProofOptions { &self.options }
+    fn new_trace_lde<E: FieldElement<BaseField = B>>(&self, trace_info: &winter_air::TraceInfo, main_trace: &winter_prover::matrix::ColMatrix<B>, domain: &winter_prover::StarkDomain<B>) -> (Self::TraceLde<E>, winter_prover::TracePolyTable<E>) {
+        winter_prover::DefaultTraceLde::new(trace_info, main_trace, domain)
+    }
+    fn new_evaluator<'a, E: FieldElement<BaseField = B>>(&self, air: &'a FamAir<B>, aux_rand_elements: Option<winter_air::AuxRandElements<E>>, composition_coefficients: winter_air::ConstraintCompositionCoefficients<E>) -> Self::ConstraintEvaluator<'a, E> {
+        winter_prover::DefaultConstraintEvaluator::new(air, aux_rand_elements, composition_coefficients)
+    }
+    fn build_aux_trace<E: FieldElement<BaseField = B>>(&self, trace: &MetaTrace<B>, aux_rand_elements: &winter_air::AuxRandElements<E>) -> winter_prover::matrix::ColMatrix<E> {
+        winter_prover::matrix::ColMatrix::new(gen_aux::<B, E>(&trace.inner.spec, trace.inner.main_segment(), aux_rand_elements.rand_elements()))
+    }
+}
+
+/// What a case generator is asked for (None = free choice).
+#[derive(Clone, Default)]
+struct Want { ext: Option<FieldExtension>, layers: Option<usize>, aux: Option<bool>, grind: Option<bool>, min_domain: usize, many_queries: bool, meta: Vec<u8>, big_remainder: bool }
+
+fn num_layers(lde: usize, blowup: usize, fold: usize, rem: usize) -> usize {
+    let max_rem = (rem + 1) * blowup; let (mut d, mut k) = (lde, 0);
+    while d > max_rem { d /= fold; k += 1; }
+    k
+}
+
+fn make_case<B: Fld, H>(r: &mut Rng, maxb: usize, hname: &str, want: &Want) -> Option<Case<B>>
+where H: ElementHasher<BaseField = B> + Send + Sync {
+    for _ in 0..400 {
         let blowup = *r.pick(&[2usize, 4, 8]);
         let mut spec = random_spec(r, 4, blowup);
         spec.width = spec.width.min(3);
@@ -31,38 +194,118 @@ where B: StarkField + ExtensibleField<2> + ExtensibleField<3> + 'static, H: Elem
         if spec.hold.iter().all(|&h| h) { spec.hold[0] = false; spec.assertions.retain(|a| !matches!(a, AKind::Periodic { col: 0, .. })); if spec.assertions.is_empty() { spec.assertions.push(AKind::Single { col: 0, step: 0 }); } }
         for d in spec.degs.iter_mut() { *d = (*d).min(blowup as u32).max(1); }
         spec.exemptions = 1;
-        let ext = *r.pick(&[FieldExtension::None, FieldExtension::None, FieldExtension::Quadratic]);
-        let fold = *r.pick(&[2usize, 4, 8]);
-        let rem = *r.pick(&[0usize, 1, 3, 7]);
-        let q = 3 + r.below(4) as usize;
-        let grind = *r.pick(&[0u32, 0, 2]);
-        // domains of at least 64 points and >= 3 queries: a changed nonce re-draws the same positions with
+        match want.aux { Some(true) => { if spec.aux_width == 0 { spec.aux_width = 1 + r.below(2) as usize; spec.aux_rands = 1 + r.below(2) as usize; } }, Some(false) => { spec.aux_width = 0; spec.aux_rands = 0; }, None => {} }
+        let ext = want.ext.unwrap_or_else(|| *r.pick(&[FieldExtension::None, FieldExtension::None, FieldExtension::Quadratic, if B::NAME == "f64" { FieldExtension::Cubic } else { FieldExtension::Quadratic }]));
+        // big_remainder: a remainder of 8 coefficients, so that R + c * prod(x - x_pos) over 3..6 positions fits
+        let fold = if want.big_remainder { 2 } else { *r.pick(&[2usize, 4, 8]) };
+        let rem = if want.big_remainder { 7 } else { *r.pick(&[0usize, 1, 3, 7]) };
+        let lde = spec.n() * blowup;
+        let q = if want.many_queries { (lde - 1).min(3 + r.below(12) as usize) } else { 3 + r.below(4) as usize };
+        let grind = match want.grind { Some(true) => 2 + r.below(3) as u32, Some(false) => 0, None => *r.pick(&[0u32, 0, 2]) };
+        // falsifier: domains of at least 64 points and >= 3 queries: a changed nonce re-draws the same positions with
         // probability <= 64^-3 per mutant (otherwise nonce edits are accepted legitimately far too often)
-        if !fri_wellformed(spec.n() * blowup, blowup, fold, rem) || q >= spec.n() * blowup || spec.n() * blowup < 64 { continue; }
+        if !fri_wellformed(lde, blowup, fold, rem) || q >= lde || lde < want.min_domain { continue; }
+        if let Some(l) = want.layers { let k = num_layers(lde, blowup, fold, rem); if (l < 2 && k != l) || (l >= 2 && k < 2) { continue; } }
         let opts = match catch(|| ProofOptions::new(q, blowup, grind, ext, fold, rem)) { Ok(o) => o, Err(_) => continue };
         let cols = gen_main::<B>(&spec);
         let trace = FamTrace::new(&spec, cols);
-        let prover = FamProver::<B, H, DefaultRandomCoin<H>>::new(opts.clone());
-        let pi = prover.get_pub_inputs(&trace);
-        let proof = match catch(AssertUnwindSafe(|| prover.prove(trace))) { Ok(Ok(p)) => p, _ => continue };
+        let (pi, proof) = if want.meta.is_empty() {
+            let prover = FamProver::<B, H, DefaultRandomCoin<H>>::new(opts.clone());
+            let pi = prover.get_pub_inputs(&trace);
+            match catch(AssertUnwindSafe(|| prover.prove(trace))) { Ok(Ok(p)) => (pi, p), _ => continue }
+        } else {
+            let info = if spec.aux_width > 0 { winter_air::TraceInfo::new_multi_segment(spec.width, spec.aux_width, spec.aux_rands, spec.n(), want.meta.clone()) }
+                       else { winter_air::TraceInfo::with_meta(spec.width, spec.n(), want.meta.clone()) };
+            let prover = MetaProver::<B, H> { options: opts.clone(), _p: PhantomData };
+            let mt = MetaTrace { inner: trace, info };
+            let pi = prover.get_pub_inputs(&mt);
+            match catch(AssertUnwindSafe(|| prover.prove(mt))) { Ok(Ok(p)) => (pi, p), _ => continue }
+        };
         let bytes = proof.to_bytes();
         if bytes.len() > maxb { continue; }
         let acc = AcceptableOptions::OptionSet(vec![opts.clone()]);
-        match catch(AssertUnwindSafe(|| verify::<FamAir<B>, H, DefaultRandomCoin<H>>(proof.clone(), pi.clone(), &acc))) { Ok(Ok(())) => {}, _ => continue }
-        let desc = format!("field={} hasher={} w={} n={} degs={:?} aux={}/{} blowup={} ext={:?} fold={} rem={} q={} grind={} seed={} bytes={}",
-            std::any::type_name::<B>().split("::").nth(3).unwrap_or("?"), hname, spec.width, spec.n(), spec.degs, spec.aux_width, spec.aux_rands, blowup, ext, fold, rem, q, grind, spec.seed, bytes.len());
-        return Some(Case { spec, opts, bytes, proof, pi, desc });
+        match catch(AssertUnwindSafe(|| verify::<FamAir<B>, H, DefaultRandomCoin<H>>(proof.clone(), pi.clone(), &acc))) {
+            Ok(Ok(())) => {},
+            _ => { HONEST_REJECTED.with(|c| *c.borrow_mut() += 1); continue }
+        }
+        let desc = format!("field={} hasher={} w={} n={} degs={:?} aux={}/{} blowup={} ext={:?} fold={} rem={} q={} grind={} meta={} seed={} bytes={}",
+            B::NAME, hname, spec.width, spec.n(), spec.degs, spec.aux_width, spec.aux_rands, blowup, ext, fold, rem, q, grind, hex_bytes(&want.meta), spec.seed, bytes.len());
+        return Some(Case { spec, opts, bytes, proof, pi, desc, meta: want.meta.clone() });
     }
     None
 }
+thread_local! { static HONEST_REJECTED: RefCell<usize> = RefCell::new(0); static CLASS_FILTER: RefCell<String> = RefCell::new(String::new()); }
 
-fn judge<B, H>(c: &Case<B>, mutant: &[u8], class: &str, what: String, stats: &mut BTreeMap<String, Stats>, out: &mut Vec<String>)
-where B: StarkField + ExtensibleField<2> + ExtensibleField<3> + 'static, H: ElementHasher<BaseField = B> + Send + Sync {
+fn layout_of<B: Fld>(c: &Case<B>, bytes: &[u8]) -> Option<Layout> {
+    dissect(bytes, c.proof.context.to_bytes().len(), if c.spec.aux_width > 0 { 2 } else { 1 })
+}
+
+
+/// (meta, rest of the serialized context)
+fn split_ctx(p: &Proof) -> (Vec<u8>, Vec<u8>) {
+    let b = p.context.to_bytes();
+    let ml = b[4] as usize | (b[5] as usize) << 8;
+    let mut rest = b[..4].to_vec(); rest.extend_from_slice(&b[6 + ml..]);
+    (b[6..6 + ml].to_vec(), rest)
+}
+fn meta_trailing_zeros_only<B: Fld>(orig: &Proof, mutant: &Proof) -> bool {
+    let mut a = mutant.clone(); a.context = orig.context.clone();
+    if a != *orig { return false; }
+    let ((m0, r0), (m1, r1)) = (split_ctx(orig), split_ctx(mutant));
+    if r0 != r1 || m0 == m1 { return false; }
+    let (short, long) = if m0.len() < m1.len() { (&m0, &m1) } else { (&m1, &m0) };
+    let chunk = B::ELEMENT_BYTES - 1;
+    let chunks = |n: usize| (n + chunk - 1) / chunk;
+    !short.is_empty() && long.len() > short.len() && long[..short.len()] == short[..] && long[short.len()..].iter().all(|&b| b == 0) && chunks(short.len()) == chunks(long.len())
+}
+
+/// outcome of one mutant, for the trailing-bytes policy probe
+fn outcome<B: Fld, H>(c: &Case<B>, mutant: &[u8]) -> &'static str
+where H: ElementHasher<BaseField = B> + Send + Sync {
+    let p2 = match catch(AssertUnwindSafe(|| Proof::from_bytes(mutant))) { Err(_) => return "panic", Ok(Err(_)) => return "parse_err", Ok(Ok(p)) => p };
+    if p2 == c.proof { return "same"; }
+    let acc = AcceptableOptions::OptionSet(vec![c.opts.clone()]);
+    match catch(AssertUnwindSafe(|| verify::<FamAir<B>, H, DefaultRandomCoin<H>>(p2, c.pi.clone(), &acc))) { Err(_) => "panic", Ok(Err(_)) => "rejected", Ok(Ok(())) => "accepted" }
+}
+
+/// For every byte container of the wire format: are bytes appended to it (length prefix rewritten) refused, or ignored?
+fn policy_probe<B: Fld, H>(c: &Case<B>, r: &mut Rng, shape: &str)
+where H: ElementHasher<BaseField = B> + Send + Sync {
+    let lay = layout_of(c, &c.bytes).expect("layout");
+    let eb = elem_bytes::<B>(c.opts.field_extension());
+    let dsz = <H::Digest as Default>::default().to_bytes().len();
+    let mut probe = |name: String, mk: &dyn Fn(&[u8]) -> Vec<u8>| {
+        let mut outs = BTreeSet::new();
+        for k in [1usize, 2, eb, dsz, 2 * eb] {
+            outs.insert(outcome::<B, H>(c, &mk(&vec![0u8; k])));
+            outs.insert(outcome::<B, H>(c, &mk(&r.bytes(k))));
+        }
+        let verdict = if outs.iter().all(|o| *o == "parse_err" || *o == "rejected") { "rejects" } else if outs.iter().all(|o| *o == "same" || *o == "accepted") { "ignores" } else { "mixed" };
+        println!("policy {} {} => {}", name, shape.trim_start_matches("shape "), verdict);
+    };
+    probe("proof".into(), &|suffix: &[u8]| { let mut m = c.bytes.clone(); m.extend_from_slice(suffix); m });
+    for s in lay.segs.iter().filter(|s| s.pfx.is_some()) {
+        let name = match s.name.as_str() {
+            "commitments" => "commitments".to_string(), "cq.values" => "constraintvalues".into(), "cq.paths" => "constraintpaths".into(),
+            "ood.trace" => "oodtrace".into(), "ood.lagrange" => "oodlagrange".into(), "ood.evals" => "oodevals".into(), "fri.remainder" => "remainder".into(),
+            n if n.starts_with("tq") => format!("trace{}{}", if n.ends_with("values") { "values" } else { "paths" }, &n[2..n.find('.').unwrap()]),
+            n if n.starts_with("fri") => format!("fri{}{}", if n.ends_with("values") { "values" } else { "paths" }, &n[3..n.find('.').unwrap()]),
+            n => n.to_string(),
+        };
+        let seg = s.clone(); let bytes = c.bytes.clone();
+        probe(name, &move |suffix: &[u8]| { let mut b = bytes[seg.start..seg.end].to_vec(); b.extend_from_slice(suffix); splice(&bytes, &seg, &b) });
+    }
+}
+
+// ================================================================================================ the oracle
+fn judge<B: Fld, H>(c: &Case<B>, mutant: &[u8], class: &str, what: String, stats: &mut BTreeMap<String, Stats>, out: &mut Vec<String>)
+where H: ElementHasher<BaseField = B> + Send + Sync {
+    if !CLASS_FILTER.with(|f| { let f = f.borrow(); f.is_empty() || class.contains(f.as_str()) }) { return; }
     let st = stats.entry(class.to_string()).or_default();
     st.mutants += 1;
     let parsed = catch(AssertUnwindSafe(|| Proof::from_bytes(mutant)));
     let p2 = match parsed { Err(_) => { st.panics += 1; return; } Ok(Err(_)) => { st.parse_err += 1; return; } Ok(Ok(p)) => p };
-    if p2 == c.proof { st.same_content += 1; return; }
+    if p2 == c.proof { st.same_content += 1; if std::env::var("C03_SHOW_SAME").is_ok() { eprintln!("same-decoded {}: {}", class, what); } return; }
     // layout-only metadata: FRI partition count (excluded by the property when it maps queried positions to the same leaves)
     {
         let mut a = p2.clone(); let b = c.proof.clone();
@@ -73,7 +316,7 @@ where B: StarkField + ExtensibleField<2> + ExtensibleField<3> + 'static, H: Elem
             winter_utils::Serializable::write_into(&p2.fri_proof, &mut fa);
             winter_utils::Serializable::write_into(&c.proof.fri_proof, &mut fb);
             let diff: Vec<usize> = (0..fa.len().min(fb.len())).filter(|&i| fa[i] != fb[i]).collect();
-            if fa.len() == fb.len() && diff.len() == 1 { st.same_content += 1; return; }
+            if fa.len() == fb.len() && diff.len() == 1 { st.same_content += 1; if std::env::var("C03_SHOW_SAME").is_ok() { eprintln!("partition-count-only {}: {}", class, what); } return; }
         }
     }
     let acc = AcceptableOptions::OptionSet(vec![c.opts.clone()]);
@@ -82,19 +325,288 @@ where B: StarkField + ExtensibleField<2> + ExtensibleField<3> + 'static, H: Elem
         Err(_) => { st.panics += 1; }
         Ok(Err(_)) => { st.rejected += 1; }
         Ok(Ok(())) => {
-            // a mutant that differs from the original ONLY in the proof-of-work nonce and is accepted drew the same
-            // query positions: it is another valid proof of the same statement, not a forgery (counted separately)
             let mut pn = Proof::from_bytes(mutant).unwrap();
             if pn.pow_nonce != c.proof.pow_nonce { pn.pow_nonce = c.proof.pow_nonce; if pn == c.proof { st.alt_nonce += 1; return; } }
             st.accepted_diff += 1;
-            out.push(format!("{{\"what\":{},\"input\":{},\"expected\":\"rejected or parse error\",\"actual\":\"accepted\",\"class\":{},\"proof_hex\":{}}}",
-                jstr(&format!("accepted mutant with different decoded content: {}", what)), jstr(&c.desc), jstr(class), jstr(&hex_bytes(mutant))));
+            // the one known class (finding C03-F4): the ONLY decoded difference is a run of zero bytes appended to (or
+            // removed from) the trace metadata without changing the number of metadata chunks absorbed into the coin seed
+            let known = meta_trailing_zeros_only::<B>(&c.proof, &Proof::from_bytes(mutant).unwrap());
+            let what = if known { format!("[trace metadata differs only by trailing zero bytes inside the last seed chunk] {}", what) } else { what };
+            // one report per (class, kind of edit): the first instance is the replayable witness
+            let mut kind = String::new();
+            for ch in what.chars() { if ch.is_ascii_digit() { if !kind.ends_with('#') { kind.push('#'); } } else { kind.push(ch); } }
+            if out.iter().any(|l| l.contains(&format!("\"kind\":{}", jstr(&format!("{}|{}", class, kind))))) { return; }
+            out.push(format!("{{\"what\":{},\"input\":{},\"expected\":\"rejected or parse error\",\"actual\":\"accepted\",\"class\":{},\"kind\":{},\"proof_hex\":{}}}",
+                jstr(&format!("accepted mutant with different decoded content: {}: {}", class, what)), jstr(&c.desc), jstr(class), jstr(&format!("{}|{}", class, kind)), jstr(&hex_bytes(mutant))));
         }
     }
 }
 
-fn run_case<B, H>(c: &Case<B>, r: &mut Rng, stats: &mut BTreeMap<String, Stats>, out: &mut Vec<String>, exhaustive_bits: bool)
-where B: StarkField + ExtensibleField<2> + ExtensibleField<3> + 'static, H: ElementHasher<BaseField = B> + Send + Sync {
+fn note_infeasible(stats: &mut BTreeMap<String, Stats>, class: &str) { stats.entry(class.to_string()).or_default().infeasible += 1; }
+
+// ================================================================================================ adaptive substitutions
+/// query positions of the accepted proof, as the verifier draws them (RecordingCoin log), sorted and deduplicated
+fn query_positions<B: Fld, H>(c: &Case<B>) -> Option<Vec<usize>>
+where H: ElementHasher<BaseField = B> + Send + Sync {
+    let _ = coinrec::take_log();
+    let acc = AcceptableOptions::OptionSet(vec![c.opts.clone()]);
+    let v = catch(AssertUnwindSafe(|| verify::<FamAir<B>, H, RecordingCoin<DefaultRandomCoin<H>>>(c.proof.clone(), c.pi.clone(), &acc)));
+    let log = coinrec::take_log();
+    if !matches!(v, Ok(Ok(()))) { return None; }
+    let l = log.iter().find(|l| l.contains(" draw_integers "))?;
+    let inner = l.split("-> [").nth(1)?.trim_end_matches(']');
+    let mut p: Vec<usize> = inner.split(',').filter_map(|s| s.trim().parse().ok()).collect();
+    p.sort_unstable(); p.dedup();
+    Some(p)
+}
+
+fn fold_pos(p: &[usize], domain: usize, fold: usize) -> Vec<usize> {
+    let t = domain / fold; let mut o: Vec<usize> = Vec::new();
+    for &x in p { let y = x % t; if !o.contains(&y) { o.push(y); } }
+    o
+}
+
+/// R + c * prod (x - offset * g_last^pos) over the folded last-layer positions; None when it does not fit the remainder
+fn adaptive_remainder<B: Fld, E: FieldElement<BaseField = B>>(rem_bytes: &[u8], lde: usize, fold: usize, layers: usize, positions: &[usize], cmul: u64) -> Option<Vec<u8>> {
+    let n = rem_bytes.len() / E::ELEMENT_BYTES;
+    let mut rd = SliceReader::new(rem_bytes);
+    let rem: Vec<E> = (0..n).map(|_| E::read_from(&mut rd)).collect::<Result<_, _>>().ok()?;
+    let (mut dom, mut pos) = (lde, positions.to_vec());
+    let mut g = B::get_root_of_unity(lde.ilog2());
+    for _ in 0..layers { pos = fold_pos(&pos, dom, fold); dom /= fold; g = g.exp((fold as u64).into()); }
+    if pos.len() + 1 > n { return None; }
+    let mut prod: Vec<E> = vec![E::ONE];
+    for &p in &pos {
+        let x = E::from(B::GENERATOR * g.exp((p as u64).into()));
+        let mut np = vec![E::ZERO; prod.len() + 1];
+        for (i, &a) in prod.iter().enumerate() { np[i + 1] += a; np[i] -= a * x; }
+        prod = np;
+    }
+    let c = E::from(B::from(cmul as u32));
+    let mut out = rem.clone();
+    for (i, &a) in prod.iter().enumerate() { out[i] += c * a; }
+    if out == rem { return None; }
+    let mut b = Vec::new();
+    for e in &out { e.write_into(&mut b); }
+    Some(b)
+}
+
+fn hash_elems<B: Fld, E: FieldElement<BaseField = B>, H: ElementHasher<BaseField = B>>(bytes: &[u8]) -> Vec<u8> {
+    let mut rd = SliceReader::new(bytes);
+    let v: Vec<E> = (0..bytes.len() / E::ELEMENT_BYTES).map(|_| E::read_from(&mut rd).unwrap()).collect();
+    H::hash_elements(&v).to_bytes()
+}
+
+fn elem_bytes<B: Fld>(ext: FieldExtension) -> usize { B::ELEMENT_BYTES * ext.degree() as usize }
+
+fn adaptive<B: Fld, H>(c: &Case<B>, r: &mut Rng, stats: &mut BTreeMap<String, Stats>, out: &mut Vec<String>)
+where H: ElementHasher<BaseField = B> + Send + Sync {
+    let lay = match layout_of(c, &c.bytes) { Some(l) => l, None => return };
+    let lde = c.spec.n() * c.opts.blowup_factor();
+    let fold = c.opts.to_fri_options().folding_factor();
+    let layers = c.opts.to_fri_options().num_fri_layers(lde);
+    let dsz = <H::Digest as Default>::default().to_bytes().len();
+    // (1) remainder + multiple of the vanishing polynomial of the folded query positions
+    match query_positions::<B, H>(c) {
+        None => note_infeasible(stats, "adaptive:remainder+vanishing"),
+        Some(pos) => {
+            let rs = lay.get("fri.remainder");
+            for cmul in [1u64, 5, 1 + r.below(1 << 20)] {
+                let nb = match c.opts.field_extension() {
+                    FieldExtension::None => adaptive_remainder::<B, B>(&c.bytes[rs.start..rs.end], lde, fold, layers, &pos, cmul),
+                    FieldExtension::Quadratic => adaptive_remainder::<B, QuadExtension<B>>(&c.bytes[rs.start..rs.end], lde, fold, layers, &pos, cmul),
+                    FieldExtension::Cubic => adaptive_remainder::<B, CubeExtension<B>>(&c.bytes[rs.start..rs.end], lde, fold, layers, &pos, cmul),
+                };
+                match nb {
+                    None => note_infeasible(stats, "adaptive:remainder+vanishing"),
+                    Some(nb) => {
+                        let m = splice(&c.bytes, rs, &nb);
+                        judge::<B, H>(c, &m, "adaptive:remainder+vanishing", format!("remainder := R + {} * prod(x - x_pos) over {} folded positions", cmul, pos.len()), stats, out);
+                        // ... together with the recomputed dependent hash: the remainder commitment carried in the proof
+                        let cs = lay.get("commitments");
+                        let h = match c.opts.field_extension() {
+                            FieldExtension::None => hash_elems::<B, B, H>(&nb),
+                            FieldExtension::Quadratic => hash_elems::<B, QuadExtension<B>, H>(&nb),
+                            FieldExtension::Cubic => hash_elems::<B, CubeExtension<B>, H>(&nb),
+                        };
+                        let mut m2 = m.clone();
+                        m2[cs.end - dsz..cs.end].copy_from_slice(&h);
+                        judge::<B, H>(c, &m2, "adaptive:remainder+vanishing+recommit", format!("remainder := R + {} * prod(x - x_pos), remainder commitment recomputed", cmul), stats, out);
+                    }
+                }
+            }
+        }
+    }
+    // (2) swapping two opened rows / (3) replacing or swapping Merkle nodes, in every opened table
+    let eb = elem_bytes::<B>(c.opts.field_extension());
+    let mut tables: Vec<(String, usize)> = vec![("tq0".into(), c.spec.width * B::ELEMENT_BYTES)];
+    if c.spec.aux_width > 0 { tables.push(("tq1".into(), c.spec.aux_width * eb)); }
+    let cq = lay.get("cq.values"); let nq = c.proof.num_unique_queries as usize;
+    tables.push(("cq".into(), (cq.end - cq.start) / nq.max(1)));
+    for i in 0..lay.nlayers { tables.push((format!("fri{}", i), fold * eb)); }
+    for (t, rowlen) in &tables {
+        let vs = lay.get(&format!("{}.values", t));
+        let rows = (vs.end - vs.start) / rowlen;
+        let class = format!("adaptive:swap-rows:{}", t.trim_end_matches(char::is_numeric));
+        if rows >= 2 {
+            for _ in 0..3 {
+                let (i, j) = (r.below(rows as u64) as usize, r.below(rows as u64) as usize);
+                if i == j { continue; }
+                let mut m = c.bytes.clone();
+                for k in 0..*rowlen { m.swap(vs.start + i * rowlen + k, vs.start + j * rowlen + k); }
+                judge::<B, H>(c, &m, &class, format!("rows {} and {} of {} swapped", i, j, t), stats, out);
+            }
+            // a row replaced by a copy of another opened row (a duplicated position's row)
+            let (i, j) = (0, rows - 1);
+            let mut m = c.bytes.clone();
+            for k in 0..*rowlen { m[vs.start + i * rowlen + k] = c.bytes[vs.start + j * rowlen + k]; }
+            judge::<B, H>(c, &m, &format!("adaptive:dup-row:{}", t.trim_end_matches(char::is_numeric)), format!("row {} of {} := row {}", i, t, j), stats, out);
+        } else { note_infeasible(stats, &class); }
+        // Merkle nodes: paths = u8 #vectors, then per vector u8 #digests + digests
+        let ps = lay.get(&format!("{}.paths", t));
+        let pb = &c.bytes[ps.start..ps.end];
+        let mut offs = Vec::new();
+        if !pb.is_empty() { let nv = pb[0] as usize; let mut p = 1; for _ in 0..nv { if p >= pb.len() { break; } let nd = pb[p] as usize; p += 1; for _ in 0..nd { if p + dsz <= pb.len() { offs.push(p); } p += dsz; } } }
+        let class = format!("adaptive:merkle-node:{}", t.trim_end_matches(char::is_numeric));
+        if offs.is_empty() { note_infeasible(stats, &class); continue; }
+        for _ in 0..3 {
+            let o = ps.start + *r.pick(&offs);
+            let mut m = c.bytes.clone();
+            // a node replaced by another digest of the proof (a commitment), by a sibling node, by the all-zero digest
+            match r.below(3) { 0 => { let cs = lay.get("commitments"); let src = cs.start; for k in 0..dsz { m[o + k] = c.bytes[src + k]; } }
+                               1 => { let o2 = ps.start + *r.pick(&offs); for k in 0..dsz { m[o + k] = c.bytes[o2 + k]; } }
+                               _ => { for k in 0..dsz { m[o + k] = 0; } } }
+            judge::<B, H>(c, &m, &class, format!("one Merkle node of {} replaced", t), stats, out);
+        }
+        if offs.len() >= 2 {
+            let (a, b) = (ps.start + offs[0], ps.start + offs[offs.len() - 1]);
+            let mut m = c.bytes.clone();
+            for k in 0..dsz { m.swap(a + k, b + k); }
+            judge::<B, H>(c, &m, &class, format!("two Merkle nodes of {} swapped", t), stats, out);
+        }
+    }
+    // (4) one OOD value changed (the dependent hash is recomputed by the verifier itself: nothing to patch), OOD rows exchanged
+    for name in ["ood.trace", "ood.evals"] {
+        let s = lay.get(name);
+        let first = if name == "ood.trace" { s.start + 1 } else { s.start };
+        let n = (s.end - first) / eb;
+        if n == 0 { continue; }
+        let k = r.below(n as u64) as usize;
+        let mut m = c.bytes.clone();
+        m[first + k * eb] = m[first + k * eb].wrapping_add(1);
+        judge::<B, H>(c, &m, "adaptive:ood-value", format!("{} element {} += 1", name, k), stats, out);
+        if n >= 2 {
+            let mut m = c.bytes.clone();
+            for b in 0..eb { m.swap(first + b, first + (n - 1) * eb + b); }
+            judge::<B, H>(c, &m, "adaptive:ood-value", format!("{} first and last element exchanged", name), stats, out);
+        }
+    }
+}
+
+// ================================================================================================ component-wise edits
+fn component_edits<B: Fld, H>(c: &Case<B>, r: &mut Rng, stats: &mut BTreeMap<String, Stats>, out: &mut Vec<String>)
+where H: ElementHasher<BaseField = B> + Send + Sync {
+    let lay = match layout_of(c, &c.bytes) { Some(l) => l, None => return };
+    let eb = elem_bytes::<B>(c.opts.field_extension());
+    let dsz = <H::Digest as Default>::default().to_bytes().len();
+    // truncation / extension of EVERY length-prefixed component (prefix rewritten so that the rest of the proof stays aligned)
+    for s in lay.segs.iter().filter(|s| s.pfx.is_some()) {
+        let body = &c.bytes[s.start..s.end];
+        let cname: String = s.name.chars().filter(|ch| !ch.is_ascii_digit()).collect();
+        for k in [1usize, 2, eb, dsz, 2 * eb] {
+            if body.len() >= k {
+                judge::<B, H>(c, &splice(&c.bytes, s, &body[..body.len() - k]), &format!("component-truncate:{}", cname), format!("{}: last {} bytes dropped", s.name, k), stats, out);
+            }
+            let mut b = body.to_vec(); b.extend(std::iter::repeat(0u8).take(k));
+            judge::<B, H>(c, &splice(&c.bytes, s, &b), &format!("component-extend:{}", cname), format!("{}: {} zero bytes appended", s.name, k), stats, out);
+            let mut b = body.to_vec(); b.extend(r.bytes(k));
+            judge::<B, H>(c, &splice(&c.bytes, s, &b), &format!("component-extend:{}", cname), format!("{}: {} random bytes appended", s.name, k), stats, out);
+            if body.len() >= k { let mut b = body.to_vec(); b.extend_from_slice(&body[body.len() - k..]);
+                judge::<B, H>(c, &splice(&c.bytes, s, &b), &format!("component-extend:{}", cname), format!("{}: last {} bytes repeated", s.name, k), stats, out); }
+        }
+        judge::<B, H>(c, &splice(&c.bytes, s, &[]), &format!("component-truncate:{}", cname), format!("{}: emptied", s.name), stats, out);
+        // the prefix alone (body untouched: the following components shift)
+        if let Some((p, _)) = s.pfx { for d in [1u8, 0xff] { let mut m = c.bytes.clone(); m[p] = m[p].wrapping_add(d); judge::<B, H>(c, &m, "component-prefix", format!("{}: length prefix {:+}", s.name, d as i8), stats, out); } }
+    }
+    // every fixed-width field x boundary and random values
+    for name in ["nq", "fri.nlayers", "fri.partitions", "nonce", "gkr"] {
+        let s = lay.get(name);
+        for v in [0u8, 1, 2, 0x7f, 0x80, 0xfe, 0xff, r.next_u64() as u8] {
+            for off in s.start..s.end { if c.bytes[off] != v { let mut m = c.bytes.clone(); m[off] = v; judge::<B, H>(c, &m, &format!("field:{}", name), format!("{} byte {} := {:#x}", name, off - s.start, v), stats, out); } }
+        }
+    }
+    // a GKR proof attached (the last byte is Option::None)
+    {
+        let mut m = c.bytes.clone(); let l = m.len(); m[l - 1] = 1; m.extend([7u8, 1, 2, 3]); // Some(vec![1,2,3]): vint length 3 = 0b0111
+        judge::<B, H>(c, &m, "edit:gkr-proof-added", "gkr_proof := Some([1,2,3])".into(), stats, out);
+    }
+    // FRI layers appended / removed / duplicated / exchanged
+    {
+        let nl = lay.get("fri.nlayers"); let rs = lay.get("fri.remainder"); let ins = rs.pfx.unwrap().0;
+        let fold = c.opts.to_fri_options().folding_factor();
+        let mut fab = Vec::new();   // a well-formed layer: one all-zero row, a batch proof without nodes
+        fab.extend(((fold * eb) as u32).to_le_bytes()); fab.extend(std::iter::repeat(0u8).take(fold * eb)); fab.extend(1u32.to_le_bytes()); fab.push(0);
+        let mut variants: Vec<(String, Vec<u8>)> = vec![("fabricated layer appended".into(), fab)];
+        if lay.nlayers > 0 {
+            let a = lay.get(&format!("fri{}.values", lay.nlayers - 1)).pfx.unwrap().0;
+            variants.push(("copy of the last layer appended".into(), c.bytes[a..ins].to_vec()));
+            let a0 = lay.get("fri0.values").pfx.unwrap().0; let e0 = lay.get("fri0.paths").end;
+            variants.push(("copy of the first layer appended".into(), c.bytes[a0..e0].to_vec()));
+        }
+        for (w, extra) in variants {
+            let mut m = c.bytes[..ins].to_vec(); m.extend_from_slice(&extra); m.extend_from_slice(&c.bytes[ins..]);
+            m[nl.start] = m[nl.start].wrapping_add(1);
+            judge::<B, H>(c, &m, "edit:fri-layer-added", w, stats, out);
+        }
+        if lay.nlayers > 0 {
+            let a = lay.get(&format!("fri{}.values", lay.nlayers - 1)).pfx.unwrap().0;
+            let mut m = c.bytes[..a].to_vec(); m.extend_from_slice(&c.bytes[ins..]); m[nl.start] -= 1;
+            judge::<B, H>(c, &m, "edit:fri-layer-removed", "last layer removed".into(), stats, out);
+        }
+        if lay.nlayers >= 2 {
+            let a0 = lay.get("fri0.values").pfx.unwrap().0; let a1 = lay.get("fri1.values").pfx.unwrap().0; let e1 = lay.get("fri1.paths").end;
+            let mut m = c.bytes[..a0].to_vec(); m.extend_from_slice(&c.bytes[a1..e1]); m.extend_from_slice(&c.bytes[a0..a1]); m.extend_from_slice(&c.bytes[e1..]);
+            judge::<B, H>(c, &m, "edit:fri-layers-exchanged", "layers 0 and 1 exchanged".into(), stats, out);
+        }
+    }
+    // commitments exchanged (trace <-> constraint, FRI roots among themselves)
+    {
+        let cs = lay.get("commitments"); let n = (cs.end - cs.start) / dsz;
+        for _ in 0..4 { let (i, j) = (r.below(n as u64) as usize, r.below(n as u64) as usize); if i == j { continue; }
+            let mut m = c.bytes.clone(); for k in 0..dsz { m.swap(cs.start + i * dsz + k, cs.start + j * dsz + k); }
+            judge::<B, H>(c, &m, "edit:commitments-exchanged", format!("commitments {} and {} exchanged", i, j), stats, out); }
+    }
+    // OOD frame: frame-size byte, Lagrange-kernel frame fabricated
+    {
+        let s = lay.get("ood.trace");
+        for v in [0u8, 1, 3, 4, 0xff] { let mut m = c.bytes.clone(); m[s.start] = v; judge::<B, H>(c, &m, "field:ood-frame-size", format!("frame size := {}", v), stats, out); }
+        let l = lay.get("ood.lagrange");
+        for k in [1usize, 2, 3] { let mut b = vec![k as u8]; b.extend(std::iter::repeat(0u8).take(k * eb));
+            judge::<B, H>(c, &splice(&c.bytes, l, &b), "edit:lagrange-frame-added", format!("Lagrange kernel frame of {} zero elements attached", k), stats, out); }
+    }
+    // trace metadata (decoded content: TraceInfo::meta): trailing zero, changed byte, removed byte
+    {
+        let s = lay.get("ctx");
+        let ml = rd(&c.bytes, s.start + 4, 2).unwrap_or(0);
+        let (ms, me) = (s.start + 6, s.start + 6 + ml);
+        let meta_edit = |newmeta: Vec<u8>| -> Vec<u8> { let mut m = c.bytes[..ms].to_vec(); m.extend_from_slice(&newmeta); m.extend_from_slice(&c.bytes[me..]); m[s.start + 4] = (newmeta.len() & 0xff) as u8; m[s.start + 5] = (newmeta.len() >> 8) as u8; m };
+        let meta = c.bytes[ms..me].to_vec();
+        debug_assert_eq!(meta, c.meta);
+        let mut z = meta.clone(); z.push(0);
+        judge::<B, H>(c, &meta_edit(z), "edit:trace-meta", "trace metadata: one zero byte appended".into(), stats, out);
+        let mut z = meta.clone(); z.push(1);
+        judge::<B, H>(c, &meta_edit(z), "edit:trace-meta", "trace metadata: one byte 0x01 appended".into(), stats, out);
+        if !meta.is_empty() {
+            let mut z = meta.clone(); z.pop();
+            judge::<B, H>(c, &meta_edit(z), "edit:trace-meta", "trace metadata: last byte dropped".into(), stats, out);
+            let mut z = meta.clone(); let k = r.below(z.len() as u64) as usize; z[k] ^= 1;
+            judge::<B, H>(c, &meta_edit(z), "edit:trace-meta", "trace metadata: one bit changed".into(), stats, out);
+        }
+    }
+}
+
+fn run_case<B: Fld, H>(c: &Case<B>, r: &mut Rng, stats: &mut BTreeMap<String, Stats>, out: &mut Vec<String>, exhaustive_bits: bool)
+where H: ElementHasher<BaseField = B> + Send + Sync {
     let n = c.bytes.len();
     // (a) single-bit flips
     let total_bits = n * 8;
@@ -114,7 +626,7 @@ where B: StarkField + ExtensibleField<2> + ExtensibleField<3> + 'static, H: Elem
         let mut m = c.bytes.clone(); m[pos] = v;
         judge::<B, H>(c, &m, "byte-boundary", format!("byte {} := {:#x}", pos, v), stats, out);
     }
-    // (c) truncation / extension
+    // (c) truncation / extension of the whole proof
     for k in [1usize, 2, 3, 8, 16, 32] {
         if n > k { judge::<B, H>(c, &c.bytes[..n - k], "truncate", format!("drop last {} bytes", k), stats, out); }
         let mut m = c.bytes.clone(); m.extend(std::iter::repeat(0u8).take(k));
@@ -131,8 +643,8 @@ where B: StarkField + ExtensibleField<2> + ExtensibleField<3> + 'static, H: Elem
         ("nonce", Box::new(|p: &mut Proof, r: &mut Rng| { p.pow_nonce = p.pow_nonce.wrapping_add(1 + r.below(5)); })),
         ("num-unique-queries", Box::new(|p: &mut Proof, r: &mut Rng| { p.num_unique_queries = p.num_unique_queries.wrapping_add(1 + r.below(3) as u8); })),
         ("swap-trace-constraint-queries", Box::new(|p: &mut Proof, _| { let t = p.trace_queries[0].clone(); p.trace_queries[0] = p.constraint_queries.clone(); p.constraint_queries = t; })),
-        ("gkr-proof-added", Box::new(|p: &mut Proof, _| { p.gkr_proof = Some(vec![1, 2, 3]); })),
         ("dup-trace-queries", Box::new(|p: &mut Proof, _| { let t = p.trace_queries[0].clone(); p.trace_queries.push(t); })),
+        ("swap-trace-segments", Box::new(|p: &mut Proof, _| { if p.trace_queries.len() == 2 { p.trace_queries.swap(0, 1); } })),
     ];
     for (name, f) in edits.iter() {
         let mut p = c.proof.clone();
@@ -140,6 +652,146 @@ where B: StarkField + ExtensibleField<2> + ExtensibleField<3> + 'static, H: Elem
         if p == c.proof { continue; }
         judge::<B, H>(c, &p.to_bytes(), &format!("edit:{}", name), name.to_string(), stats, out);
     }
+    // (e) every component of the wire format, (f) substitutions that need the query positions
+    component_edits::<B, H>(c, r, stats, out);
+    adaptive::<B, H>(c, r, stats, out);
+}
+
+// ================================================================================================ correspondence
+/// The observable event list of the real verifier on an accepted proof.
+fn observe<B: Fld, H>(c: &Case<B>) -> (String, String)
+where H: ElementHasher<BaseField = B> + Send + Sync {
+    type LH<H> = LoggingHasher<H>;
+    let lay = layout_of(c, &c.bytes).expect("layout");
+    let eb = elem_bytes::<B>(c.opts.field_extension());
+    let dsz = <H::Digest as Default>::default().to_bytes().len();
+    let fold = c.opts.to_fri_options().folding_factor();
+    let lde = c.spec.n() * c.opts.blowup_factor();
+    let nseg = if c.spec.aux_width > 0 { 2 } else { 1 };
+    let nq = c.proof.num_unique_queries as usize;
+    // ---- names of the proof's components, from the wire format only
+    let mut rows: HashMap<Vec<u8>, String> = HashMap::new();
+    let mut add_rows = |name: &str, comp: &str, rowlen: usize| { for ch in lay.body(&c.bytes, name).chunks(rowlen) { rows.entry(ch.to_vec()).or_insert(comp.to_string()); } };
+    add_rows("tq0.values", "trace0", c.spec.width * B::ELEMENT_BYTES);
+    if nseg == 2 { add_rows("tq1.values", "trace1", c.spec.aux_width * eb); }
+    let cql = lay.body(&c.bytes, "cq.values").len();
+    add_rows("cq.values", "constraint", cql / nq);
+    let mut frirows = Vec::new();
+    for i in 0..lay.nlayers { add_rows(&format!("fri{}.values", i), &format!("fri{}", i), fold * eb); frirows.push(lay.body(&c.bytes, &format!("fri{}.values", i)).len() / (fold * eb)); }
+    let mut whole: HashMap<Vec<u8>, String> = HashMap::new();
+    { let mut t = lay.body(&c.bytes, "ood.trace")[1..].to_vec(); t.extend_from_slice(&lay.body(&c.bytes, "ood.lagrange")[1..]); whole.insert(t, "oodtrace".into()); }
+    whole.insert(lay.body(&c.bytes, "ood.evals").to_vec(), "oodevals".into());
+    whole.insert(lay.body(&c.bytes, "fri.remainder").to_vec(), "remainder".into());
+    let cb = lay.body(&c.bytes, "commitments");
+    let mut roots: HashMap<Vec<u8>, String> = HashMap::new();
+    let ncom = cb.len() / dsz;
+    for k in 0..ncom {
+        let name = if k < nseg { format!("traceroot{}", k) } else if k == nseg { "constraintroot".to_string() } else if k == ncom - 1 { "remroot".to_string() } else { format!("friroot{}", k - nseg - 1) };
+        roots.entry(cb[k * dsz..(k + 1) * dsz].to_vec()).or_insert(name);
+    }
+    // ---- run the real verifier
+    let _ = take_ulog();
+    let acc = AcceptableOptions::OptionSet(vec![c.opts.clone()]);
+    let v = catch(AssertUnwindSafe(|| verify::<FamAir<B>, LH<H>, RecordingCoin<DefaultRandomCoin<LH<H>>>>(c.proof.clone(), c.pi.clone(), &acc)));
+    let log = take_ulog();
+    // ---- abstraction
+    let mut ev: Vec<String> = Vec::new();
+    let mut push = |ev: &mut Vec<String>, kind: &str, arg: &str| {
+        // runs of Draw / HashLeaves c are collapsed into one event with a count
+        if let Some(last) = ev.last_mut() {
+            let mut parts: Vec<String> = last.split(' ').map(|s| s.to_string()).collect();
+            if (kind == "Draw" && parts[0] == "Draw") || (kind == "HashLeaves" && parts[0] == "HashLeaves" && parts[1] == arg) {
+                let n: usize = parts.last().unwrap().parse().unwrap(); let l = parts.len(); parts[l - 1] = (n + 1).to_string(); *last = parts.join(" "); return;
+            }
+        }
+        ev.push(match kind { "Draw" => "Draw 1".to_string(), "HashLeaves" => format!("HashLeaves {} 1", arg), _ => if arg.is_empty() { kind.to_string() } else { format!("{} {}", kind, arg) } });
+    };
+    let (mut pending_new, mut pending_reseed): (bool, Option<String>) = (false, None);
+    let mut hashed: HashMap<Vec<u8>, String> = HashMap::new();   // digest -> H(name)
+    let mut leaf_of: HashMap<Vec<u8>, String> = HashMap::new();  // digest -> component whose row hashes to it
+    let mut block: BTreeSet<String> = BTreeSet::new();
+    let mut block_open = false;
+    let mut reseeded = false;
+    for e in log {
+        match e {
+            Ent::Coin(s) => {
+                let mut it = s.splitn(3, ' '); let _ = it.next(); let op = it.next().unwrap_or(""); let rest = it.next().unwrap_or("");
+                match op {
+                    "new" => pending_new = true,
+                    "reseed" => { reseeded = true; pending_reseed = Some(rest.to_string()) },
+                    "draw" => push(&mut ev, "Draw", ""),
+                    "check_leading_zeros" => push(&mut ev, "CheckPow", ""),
+                    "draw_integers" => push(&mut ev, "DrawPositions", ""),
+                    _ => push(&mut ev, "Coin?", op),
+                }
+            }
+            Ent::HashElems { bytes, out } => {
+                if pending_new { pending_new = false; push(&mut ev, "AbsorbSeed", ""); }
+                // rows are hashed while the channel is built (before the first reseed), whole components afterwards; the two
+                // tables are consulted in that order only (a constant composition polynomial makes an opened row equal to
+                // the OOD evaluations)
+                else if !reseeded && rows.contains_key(&bytes) { let cn = rows[&bytes].clone(); leaf_of.insert(out, cn.clone()); push(&mut ev, "HashLeaves", &cn); }
+                else if reseeded && whole.contains_key(&bytes) { let w = whole[&bytes].clone(); hashed.insert(out, format!("H({})", w)); push(&mut ev, "HashWhole", &w); }
+                else { push(&mut ev, "HashElems?", &bytes.len().to_string()); }
+            }
+            Ent::HashBytes { len } => push(&mut ev, "HashBytes?", &len.to_string()),
+            Ent::MergeInt => {}
+            Ent::Merge { a, b, out } => {
+                if let Some(d) = pending_reseed.take() {
+                    let db = if d == "-" { vec![] } else { (0..d.len() / 2).map(|i| u8::from_str_radix(&d[2 * i..2 * i + 2], 16).unwrap()).collect::<Vec<u8>>() };
+                    let name = if db != b { "?mismatch".to_string() } else if let Some(n) = roots.get(&db) { n.clone() } else if let Some(n) = hashed.get(&db) { n.clone() } else { "?".to_string() };
+                    push(&mut ev, "Absorb", &name);
+                } else {
+                    block_open = true;
+                    for x in [&a, &b] { if let Some(cn) = leaf_of.get(x) { block.insert(cn.clone()); } }
+                    if let Some(rn) = roots.get(&out) {
+                        let cs: Vec<String> = block.iter().cloned().collect();
+                        push(&mut ev, "AuthCheck", &format!("{} {}", if cs.is_empty() { "?".to_string() } else { cs.join("+") }, rn));
+                        block.clear(); block_open = false;
+                    }
+                }
+            }
+        }
+    }
+    if block_open { let cs: Vec<String> = block.iter().cloned().collect(); push(&mut ev, "AuthCheck", &format!("{} ?", cs.join("+"))); }
+    ev.push(format!("verdict={}", match v { Ok(Ok(())) => "ok", Ok(Err(_)) => "rejected", Err(_) => "panic" }));
+    // ---- the shape, from the AIR and the wire format
+    let air = FamAir::<B>::new(c.proof.trace_info().clone(), c.pi.clone(), c.opts.clone());
+    let ncomp = air.context().num_transition_constraints() + air.context().num_assertions();
+    let ndeep = air.trace_info().width() + air.context().num_constraint_composition_columns();
+    let shape = format!("shape aux={} auxrands={} ncomp={} ndeep={} layers={} q={} frirows={} grind={}", (nseg == 2) as u8, c.spec.aux_rands, ncomp, ndeep,
+        c.opts.to_fri_options().num_fri_layers(lde), nq, if frirows.is_empty() { "-".to_string() } else { frirows.iter().map(|x| x.to_string()).collect::<Vec<_>>().join(",") }, c.opts.grinding_factor());
+    (shape, ev.join(";"))
+}
+
+fn corr(seed: u64, n: usize) {
+    let mut r = Rng::new(seed);
+    let mut seen = BTreeMap::new();
+    for i in 0..n {
+        let want = Want {
+            // the cubic extension exists for f64 only (even i)
+            ext: Some(if i % 14 == 6 { FieldExtension::Cubic } else if (i / 2) % 2 == 0 { FieldExtension::None } else { FieldExtension::Quadratic }),
+            layers: Some((i / 4) % 3), aux: Some((i / 12) % 2 == 1), grind: Some((i / 24) % 2 == 1), min_domain: 16, many_queries: (i / 48) % 2 == 1, meta: vec![], big_remainder: false,
+        };
+        let res = match (i % 2, (i / 96) % 3) {
+            (0, 0) => make_case::<f64::BaseElement, Blake3_256<f64::BaseElement>>(&mut r, 1 << 20, "blake3_256", &want).map(|c| { if i % 6 == 0 { let sh = observe::<_, Blake3_256<f64::BaseElement>>(&c).0; policy_probe::<_, Blake3_256<f64::BaseElement>>(&c, &mut Rng::new(seed ^ i as u64), &sh); } (c.desc.clone(), observe::<_, Blake3_256<f64::BaseElement>>(&c)) }),
+            (0, 1) => make_case::<f64::BaseElement, ToyHasher<f64::BaseElement>>(&mut r, 1 << 20, "toy", &want).map(|c| (c.desc.clone(), observe::<_, ToyHasher<f64::BaseElement>>(&c))),
+            (0, _) => make_case::<f64::BaseElement, Rp64_256>(&mut r, 1 << 20, "rp64_256", &want).map(|c| (c.desc.clone(), observe::<_, Rp64_256>(&c))),
+            (_, 1) => make_case::<f128::BaseElement, ToyHasher<f128::BaseElement>>(&mut r, 1 << 20, "toy", &want).map(|c| (c.desc.clone(), observe::<_, ToyHasher<f128::BaseElement>>(&c))),
+            (_, _) => make_case::<f128::BaseElement, Blake3_256<f128::BaseElement>>(&mut r, 1 << 20, "blake3_256", &want).map(|c| { if i % 6 == 1 { let sh = observe::<_, Blake3_256<f128::BaseElement>>(&c).0; policy_probe::<_, Blake3_256<f128::BaseElement>>(&c, &mut Rng::new(seed ^ i as u64), &sh); } (c.desc.clone(), observe::<_, Blake3_256<f128::BaseElement>>(&c)) }),
+        };
+        match res {
+            Some((desc, (shape, evs))) => {
+                println!("{} => {}", shape, evs);
+                let key = format!("{} layers={} aux={} grind={} manyq={}", desc.split(' ').next().unwrap_or(""), (i / 4) % 3, (i / 12) % 2, (i / 24) % 2, (i / 48) % 2);
+                *seen.entry(key).or_insert(0usize) += 1;
+                eprintln!("# case {} {}", i, desc);
+            }
+            None => println!("#nocase {}", i),
+        }
+    }
+    println!("#classes {}", seen.len());
+    println!("#honest_rejected {}", HONEST_REJECTED.with(|c| *c.borrow()));
 }
 
 fn main() {
@@ -147,26 +799,38 @@ fn main() {
     let args: Vec<String> = std::env::args().collect();
     let seed: u64 = args.get(2).and_then(|s| s.parse().ok()).unwrap_or(1);
     let n: usize = args.get(3).and_then(|s| s.parse().ok()).unwrap_or(4);
+    if args.get(1).map(|s| s.as_str()) == Some("corr") { corr(seed, n); return; }
     let maxb: usize = args.get(4).and_then(|s| s.parse().ok()).unwrap_or(2500);
+    if args.get(1).map(|s| s.as_str()) == Some("replay") { CLASS_FILTER.with(|f| *f.borrow_mut() = args.get(5).cloned().unwrap_or_default()); }
     let mut r = Rng::new(seed);
     let mut stats = BTreeMap::new();
     let mut out = Vec::new();
     let mut descs = Vec::new();
     for i in 0..n {
         let exhaustive = i < 2;
+        // every 4th..: a trace with metadata (decoded content of the context); the others as drawn
+        let want = Want { min_domain: 64, meta: if i % 3 == 2 { let k = 1 + r.below(6) as usize; r.bytes(k).iter().map(|b| b | 1).collect() } else { vec![] }, ..Default::default() };
         match i % 4 {
-            0 => if let Some(c) = make_case::<f64::BaseElement, Blake3_256<f64::BaseElement>>(&mut r, maxb, "blake3_256") { descs.push(c.desc.clone()); run_case::<f64::BaseElement, Blake3_256<f64::BaseElement>>(&c, &mut r, &mut stats, &mut out, exhaustive); },
-            1 => if let Some(c) = make_case::<f128::BaseElement, Blake3_256<f128::BaseElement>>(&mut r, maxb, "blake3_256") { descs.push(c.desc.clone()); run_case::<f128::BaseElement, Blake3_256<f128::BaseElement>>(&c, &mut r, &mut stats, &mut out, exhaustive); },
-            2 => if let Some(c) = make_case::<f64::BaseElement, ToyHasher<f64::BaseElement>>(&mut r, maxb, "toy") { descs.push(c.desc.clone()); run_case::<f64::BaseElement, ToyHasher<f64::BaseElement>>(&c, &mut r, &mut stats, &mut out, exhaustive); },
-            _ => if let Some(c) = make_case::<f64::BaseElement, winter_crypto::hashers::Rp64_256>(&mut r, maxb, "rp64_256") { descs.push(c.desc.clone()); run_case::<f64::BaseElement, winter_crypto::hashers::Rp64_256>(&c, &mut r, &mut stats, &mut out, exhaustive); },
+            0 => if let Some(c) = make_case::<f64::BaseElement, Blake3_256<f64::BaseElement>>(&mut r, maxb, "blake3_256", &want) { descs.push(c.desc.clone()); run_case::<f64::BaseElement, Blake3_256<f64::BaseElement>>(&c, &mut r, &mut stats, &mut out, exhaustive); },
+            1 => if let Some(c) = make_case::<f128::BaseElement, Blake3_256<f128::BaseElement>>(&mut r, maxb, "blake3_256", &want) { descs.push(c.desc.clone()); run_case::<f128::BaseElement, Blake3_256<f128::BaseElement>>(&c, &mut r, &mut stats, &mut out, exhaustive); },
+            2 => if let Some(c) = make_case::<f64::BaseElement, ToyHasher<f64::BaseElement>>(&mut r, maxb, "toy", &want) { descs.push(c.desc.clone()); run_case::<f64::BaseElement, ToyHasher<f64::BaseElement>>(&c, &mut r, &mut stats, &mut out, exhaustive); },
+            _ => if let Some(c) = make_case::<f64::BaseElement, Rp64_256>(&mut r, maxb, "rp64_256", &want) { descs.push(c.desc.clone()); run_case::<f64::BaseElement, Rp64_256>(&c, &mut r, &mut stats, &mut out, exhaustive); },
+        }
+        // a second proof of the same round whose remainder is large enough for the position-dependent substitution
+        let want = Want { min_domain: 64, big_remainder: true, ext: Some(if i % 2 == 0 { FieldExtension::None } else if i % 3 != 1 && i % 4 == 3 { FieldExtension::Cubic } else { FieldExtension::Quadratic }), ..Default::default() };
+        match i % 3 {
+            0 => if let Some(c) = make_case::<f64::BaseElement, Blake3_256<f64::BaseElement>>(&mut r, 1 << 16, "blake3_256", &want) { descs.push(c.desc.clone()); adaptive::<f64::BaseElement, Blake3_256<f64::BaseElement>>(&c, &mut r, &mut stats, &mut out); },
+            1 => if let Some(c) = make_case::<f128::BaseElement, Blake3_256<f128::BaseElement>>(&mut r, 1 << 16, "blake3_256", &want) { descs.push(c.desc.clone()); adaptive::<f128::BaseElement, Blake3_256<f128::BaseElement>>(&c, &mut r, &mut stats, &mut out); },
+            _ => if let Some(c) = make_case::<f64::BaseElement, ToyHasher<f64::BaseElement>>(&mut r, 1 << 16, "toy", &want) { descs.push(c.desc.clone()); adaptive::<f64::BaseElement, ToyHasher<f64::BaseElement>>(&c, &mut r, &mut stats, &mut out); },
         }
     }
     for l in &out { println!("{}", l); }
     for d in &descs { println!("config {}", d); }
     let mut total = 0;
     for (k, s) in &stats {
-        println!("class={} mutants={} parse_err={} rejected={} same_content={} accepted_diff={} panics={} alt_nonce={}", k, s.mutants, s.parse_err, s.rejected, s.same_content, s.accepted_diff, s.panics, s.alt_nonce);
+        println!("class={} mutants={} parse_err={} rejected={} same_content={} accepted_diff={} panics={} alt_nonce={} infeasible={}", k, s.mutants, s.parse_err, s.rejected, s.same_content, s.accepted_diff, s.panics, s.alt_nonce, s.infeasible);
         total += s.mutants;
     }
+    println!("configs={} honest_rejected={}", descs.len(), HONEST_REJECTED.with(|c| *c.borrow()));
     println!("evaluations={} failures={}", total, out.len());
 }
